@@ -177,6 +177,64 @@ def stream_runs(res, r, thorough):
     return bad
 
 
+def kernel_merge_probe():
+    """recorded finding D28: three FILE operations back to back (inside C01's histories) while every reader is held off -
+    `mv a f; chmod f; mv O/x f`.  Under a filter whose kernel mask has no IN_ATTRIB the two IN_MOVED_TO records for `f` are
+    adjacent in that watch's kernel queue and the kernel merges them (same descriptor, mask, name); the unfiltered watch keeps
+    both (the IN_ATTRIB lies between them).  Returns a description of the difference, or None."""
+    import threading
+
+    import watchdog.events as ev
+    from watchdog.observers import inotify_c
+    from watchdog.observers.inotify import InotifyObserver
+
+    gate = threading.Event()
+    gate.set()
+    real_os = inotify_c.os
+
+    class OsProxy:
+        def __getattr__(self, name):
+            return getattr(real_os, name)
+
+        def read(self, fd, n):
+            gate.wait(10)
+            return real_os.read(fd, n)
+
+    uni = fsops.Universe()
+    obs = InotifyObserver()
+    inotify_c.os = OsProxy()
+    try:
+        uni.apply(("create", "W/a"))
+        uni.apply(("create", "O/x"))
+        main, flt = fsops.Recorder(), fsops.Recorder()
+        obs.schedule(main.handler, uni.root, recursive=False)
+        obs.schedule(flt.handler, uni.root, recursive=False, event_filter=[ev.FileCreatedEvent])
+        obs.start()
+        time.sleep(0.2)
+        gate.clear()
+        time.sleep(0.1)          # the readers are now parked in front of their read()
+        for op in (("rename", "W/a", "W/f"), ("chmod", "W/f"), ("rename", "O/x", "W/f")):
+            uni.apply(op)
+        gate.set()
+        tagged = fsops.full_sentinel(uni, main)
+        fsops.wait_filtered(tagged, [flt], [[ev.FileCreatedEvent]], [0])
+        time.sleep(0.65)
+        tagged = fsops.full_sentinel(uni, main)
+        fsops.wait_filtered(tagged, [flt], [[ev.FileCreatedEvent]], [0])
+        want = [e for e in main.canon(uni) if e[0] == "FileCreatedEvent"]
+        got = [e for e in flt.canon(uni) if e[0] == "FileCreatedEvent"]
+        if fsops.collapse(got) != fsops.collapse(want):
+            return {"history": ["rename W/a W/f", "chmod W/f", "rename O/x W/f"], "filter": ["FileCreatedEvent"],
+                    "filtered_stream": got, "unfiltered_restricted": want}
+        return None
+    finally:
+        inotify_c.os = real_os
+        gate.set()
+        obs.stop()
+        obs.join(5)
+        uni.cleanup()
+
+
 def run(res, tier, lean, proof_breaks=(), build_log=""):
     r = common.rng("c11")
     thorough = tier == "thorough"
@@ -213,6 +271,14 @@ def run(res, tier, lean, proof_breaks=(), build_log=""):
                       "nor the real-kernel stream comparison found a failing input",
                       {"theorem_no_longer_checks": list(proof_breaks), "lean_error": build_log[-3000:]},
                       no_input=True, signature="c11-proof-break")
+    # the input of the recorded finding D28, last (other reports look at res.violations)
+    kp = kernel_merge_probe()
+    res.count()
+    res.bump("recorded_finding_inputs_run")
+    if kp:
+        res.violation(f"filtered watch {kp['filter']} lost an event of an accepted class in a back-to-back history of file "
+                      f"operations: delivered {kp['filtered_stream']}, the unfiltered stream restricted to the filter is "
+                      f"{kp['unfiltered_restricted']}", kp, signature="c11-d28-kernel-merge-under-narrowed-mask")
     if sb:
         res.sample(sb[0])
     res.sample({"table_rows": "see lean/WD/Generated/InotifyTables.lean", "table_failures": len(fails)})
